@@ -1828,3 +1828,10 @@ VL("c20-location-scale-uniform-hi", "C20", "fire", _ls(unif="hi"), rule="LAW.uni
 VL("c20-location-scale-normal-var", "C20", "fire", _ls(sd="var"), rule="LAW.normal", what="variance used as standard deviation")
 VL("c04-location-scale-normal-var", "C04", "fire", _ls(sd="var"), rule="UNIT.noise-normal", what="variance used as standard deviation")
 VL("c20-location-scale-laplace-sqrt", "C20", "fire", _ls(lap="scale**0.5"), rule="LAW.laplace", what="square root of the scale")
+
+# ------------------------------------------------------------------------------- rounds 11 / 12 inspired (C11: a memoised mask written in place)
+_GF_OLD = "    A = np.triu(np.ones((p, p)), k=1)\n    weights = rng.uniform(w_min, w_max, size=A.shape)\n    W = A * weights\n"
+V("c11-memoised-mask-written", "C11", "fire", GE, "import numpy as np\n", "import numpy as np\nfrom functools import lru_cache\n\n\n@lru_cache(maxsize=None)\ndef _full_adjacency(p):\n    return np.triu(np.ones((p, p)), k=1)\n",
+  more=[(GE, _GF_OLD, "    W = _full_adjacency(p)\n    W *= rng.uniform(w_min, w_max, size=W.shape)\n")], rule="FRESH", what="the cached mask is multiplied in place: the second graph of a size carries the first one's weights")
+V("c11-memoised-mask-read-only", "C11", "undecided", GE, "import numpy as np\n", "import numpy as np\nfrom functools import lru_cache\n\n\n@lru_cache(maxsize=None)\ndef _full_adjacency(p):\n    return np.triu(np.ones((p, p)), k=1)\n",
+  more=[(GE, _GF_OLD, "    A = _full_adjacency(p)\n    weights = rng.uniform(w_min, w_max, size=A.shape)\n    W = A * weights\n")], what="the cached mask is only read")
